@@ -35,12 +35,21 @@
 (*                 through a spelling of group g (banned: 1/0, ERR = call   *)
 (*                 failed; reason 0 when not banned)                        *)
 (* obs.raw       = the raw buckets (drift only, never judged)               *)
-(* act = [op, c, g, d, r, now, res, b, rr]                                  *)
+(* act = [op, c, g, d, r, now, res, b, rr, k, op2, c2, g2, d2, r2, res2,    *)
+(*        b2, rr2]                                                          *)
 (*   op  "Ban" | "Unban" | "Status" | "Reopen" | "Tick" | "Init"            *)
 (*   c,g class and spelling group (0 when not applicable)                   *)
 (*   d   duration in ticks (Ban), r reason given (Ban)                      *)
 (*   res "ok" | "err" | "panic"                                             *)
 (*   b,rr what an explicit Status call answered (-1 when not applicable)    *)
+(*   k   -1: one caller.  k >= 0: TWO CONCURRENT CALLERS - the call         *)
+(*       (op2,c2,g2,d2,r2) of a second caller ran, in its own goroutine,    *)
+(*       while the first caller's call (op,c,...) was in progress, namely   *)
+(*       after that call's k-th database transaction had committed and      *)
+(*       before its next one began (after its return if it made fewer).     *)
+(*       The two calls overlap in time, so either order of taking effect    *)
+(*       is legal; the step is judged against both and violates the         *)
+(*       property only if NEITHER order explains every answer.              *)
 (***************************************************************************)
 EXTENDS Integers, Sequences, FiniteSets
 
@@ -52,51 +61,71 @@ Covers == {<<3, 1>>, <<3, 4>>, <<5, 2>>}
 
 AbsInit == [now |-> 0, rec |-> [c \in 1..MaxC |-> <<NoRec, 0>>]]
 
-AbsNext(a, act, o2) ==
-  LET a1 == [a EXCEPT !.now = act.now]
-  IN  CASE act.op = "Ban" /\ act.res = "ok" ->
-             [a1 EXCEPT !.rec[act.c] = <<act.now + act.d, act.r>>]    \* a re-ban overwrites
-        [] act.op = "Unban" /\ act.res = "ok" ->
-             [a1 EXCEPT !.rec[act.c] = <<NoRec, 0>>]
-        [] OTHER -> a1
+First(act)  == [op |-> act.op, c |-> act.c, g |-> act.g, d |-> act.d, r |-> act.r,
+                res |-> act.res, b |-> act.b, rr |-> act.rr]
+Second(act) == [op |-> act.op2, c |-> act.c2, g |-> act.g2, d |-> act.d2, r |-> act.r2,
+                res |-> act.res2, b |-> act.b2, rr |-> act.rr2]
+IsPair(act) == act.k >= 0
+
+\* the effect of one call on the ideal store
+Apply(a, x) ==
+  CASE x.op = "Ban" /\ x.res = "ok" ->
+         [a EXCEPT !.rec[x.c] = <<a.now + x.d, x.r>>]      \* a re-ban overwrites
+    [] x.op = "Unban" /\ x.res = "ok" ->
+         [a EXCEPT !.rec[x.c] = <<NoRec, 0>>]
+    [] OTHER -> a
 
 HasRec(a, c) == a.rec[c][1] # NoRec
 Live(a, c)   == HasRec(a, c) /\ a.now < a.rec[c][1]
 CoveredLive(a, c) == \E n \in 1..MaxC : <<n, c>> \in Covers /\ Live(a, n)
 
-\* All answers about class c visible in this step: the sweep over every
-\* spelling group, plus the explicit Status call if it was about c.
-Answers(act, o2, c) ==
-  {o2.q[c][g] : g \in 1..Len(o2.q[c])}
-  \cup (IF act.op = "Status" /\ act.c = c /\ act.res = "ok" THEN {<<act.b, act.rr>>} ELSE {})
+\* clauses violated by ONE answer x = <<banned, reason>> about class c
+AnswerViol(a, c, x) ==
+  (IF Live(a, c) /\ x[1] # 1 THEN {"BannedUntilLapse"} ELSE {})
+  \cup (IF Live(a, c) /\ x[1] = 1 /\ x[2] # a.rec[c][2] THEN {"RecordedReason"} ELSE {})
+  \cup (IF HasRec(a, c) /\ ~Live(a, c) /\ ~CoveredLive(a, c) /\ x[1] = 1
+        THEN {"NotBannedAfterLapse"} ELSE {})
+  \cup (IF ~HasRec(a, c) /\ ~CoveredLive(a, c) /\ x[1] = 1
+        THEN {"NotBannedAfterUnban"} ELSE {})
+
+\* the Status sweep after the step: every class through every spelling group
+SweepViol(a, o) ==
+  UNION {AnswerViol(a, c, o.q[c][g]) : c \in 1..Len(o.q), g \in 1..3}
+  \cup (IF \E c \in 1..Len(o.q) : \E g1, g2 \in 1..Len(o.q[c]) : o.q[c][g1] # o.q[c][g2]
+        THEN {"SameRecordEverySpelling"} ELSE {})
+  \cup (IF \E c \in 1..Len(o.q) : \E g \in 1..Len(o.q[c]) : o.q[c][g][1] = ERR
+        THEN {"EveryFormAccepted"} ELSE {})
+
+\* one call x, judged in the ideal state a it took effect in
+CallViol(a, x) ==
+  (IF x.op = "Status" /\ x.res = "ok" THEN AnswerViol(a, x.c, <<x.b, x.rr>>) ELSE {})
+  \cup (IF x.op \in {"Ban", "Unban", "Status"} /\ x.res # "ok" THEN {"EveryFormAccepted"} ELSE {})
+
+\* two overlapping calls taking effect in the order x, y
+OrderViol(a, x, y, o2) ==
+  LET a1 == Apply(a, x)
+      a2 == Apply(a1, y)
+  IN  CallViol(a1, x) \cup CallViol(a2, y) \cup SweepViol(a2, o2)
+
+AbsNext(a, act, o2) ==
+  LET a0 == [a EXCEPT !.now = act.now]
+  IN  IF ~IsPair(act) THEN Apply(a0, First(act))
+      ELSE LET x == First(act)
+               y == Second(act)
+           IN  IF OrderViol(a0, x, y, o2) = {} \/ OrderViol(a0, y, x, o2) # {}
+               THEN Apply(Apply(a0, x), y)
+               ELSE Apply(Apply(a0, y), x)
 
 Viol(a, o, act, a2, o2) ==
-  LET NCo == Len(o2.q)
-      Cs  == 1..NCo
-  IN
-  (IF \E c \in Cs : Live(a2, c) /\ \E x \in Answers(act, o2, c) : x[1] # 1
-   THEN {"BannedUntilLapse"} ELSE {})
-  \cup
-  (IF \E c \in Cs : Live(a2, c) /\ \E x \in Answers(act, o2, c) : x[1] = 1 /\ x[2] # a2.rec[c][2]
-   THEN {"RecordedReason"} ELSE {})
-  \cup
-  (IF \E c \in Cs : HasRec(a2, c) /\ ~Live(a2, c) /\ ~CoveredLive(a2, c)
-                    /\ \E x \in Answers(act, o2, c) : x[1] = 1
-   THEN {"NotBannedAfterLapse"} ELSE {})
-  \cup
-  (IF \E c \in Cs : ~HasRec(a2, c) /\ ~CoveredLive(a2, c)
-                    /\ \E x \in Answers(act, o2, c) : x[1] = 1
-   THEN {"NotBannedAfterUnban"} ELSE {})
-  \cup
-  (IF \E c \in Cs : \E g1, g2 \in 1..Len(o2.q[c]) : o2.q[c][g1] # o2.q[c][g2]
-   THEN {"SameRecordEverySpelling"} ELSE {})
-  \cup
-  (IF act.op = "Reopen" /\ (act.res # "ok" \/ o2.q # o.q)
-   THEN {"ReopenPreserves"} ELSE {})
-  \cup
-  (IF (act.op \in {"Ban", "Unban", "Status"} /\ act.res # "ok")
-      \/ \E c \in Cs : \E g \in 1..Len(o2.q[c]) : o2.q[c][g][1] = ERR
-   THEN {"EveryFormAccepted"} ELSE {})
+  IF IsPair(act)
+  THEN LET a0 == [a EXCEPT !.now = act.now]
+           v1 == OrderViol(a0, First(act), Second(act), o2)
+           v2 == OrderViol(a0, Second(act), First(act), o2)
+       IN  IF v1 = {} \/ v2 = {} THEN {}
+           ELSE IF v1 \cap v2 # {} THEN v1 \cap v2 ELSE v1
+  ELSE CallViol(a2, First(act)) \cup SweepViol(a2, o2)
+       \cup (IF act.op = "Reopen" /\ (act.res # "ok" \/ o2.q # o.q)
+             THEN {"ReopenPreserves"} ELSE {})
 
 EndViol(a, o) == {}
 =============================================================================
